@@ -585,6 +585,10 @@ def _skip_finish(c, outcome, args, old):
     c.prove("never_launches", not any(e.kind == "launch_command" for e in t), kind="post")
     done = [e for e in t if e.kind == "mark_completed"]
     if not done:
+        # C06: a skip check that does not complete the step stores nothing.  In particular it does not record the
+        # hashes of outputs it found changed: such content was not produced by a run of the step (a user may have
+        # written it), and a stored hash is what later lets the clean-up remove the file as "unmodified"
+        c.prove("a_failed_skip_check_stores_no_hashes", tm.mk_bool(not any(e.kind == "update_file_hashes" for e in t)), kind="post")
         return
     sh = args["step_hash"]
     c.prove("completed_only_with_a_hash", tm.Not(done[0].hash.isnone) if isinstance(done[0].hash, sym.SymOpt)
@@ -603,6 +607,7 @@ class try_skip_job:
                 step_hash=StepHashRec2)
     finish = _skip_finish
     modifies = []
+    partial_props = {"C06": ["a_failed_skip_check_stores_no_hashes"]}
 
 
 # ---------------------------------------------------------------- amended inputs: availability and freshness
